@@ -294,7 +294,7 @@ impl Scenario for Wire {
                 real: vec!["SecureChannel::verify_and_remove_security (symmetric and asymmetric)", "crypto: HMAC verify, RSA verify/decrypt, AES", "TcpCodec", "Chunker::validate_chunks/decode", "sender: SendBuffer / MessageWriter / apply_security"],
                 stubbed: vec!["socket", "OpenSecureChannel service exchange"],
                 assumptions: vec!["quick tier: key sizes 1024/2048 and one message size; thorough adds 4096-bit keys and three message sizes (one multi-chunk)"],
-                fault_kinds: vec!["flip", "truncate", "truncate_fix", "extend", "extend_fix", "foreign_nonces", "foreign_cert", "old_token"],
+                fault_kinds: vec!["flip", "truncate", "truncate_fix", "extend", "extend_fix", "extend_direct", "foreign_nonces", "foreign_cert", "old_token"],
             },
             _ => Info {
                 level: "exploration",
@@ -462,6 +462,14 @@ fn receiver_for(plan: &Value, state: &str) -> Receiver {
             c.set_private_key(Some(me.key()));
             Receiver::new(c)
         }
+        "awaiting_first_opn" => {
+            // the client has sent its first OpenSecureChannel request: it knows the server
+            // certificate from the endpoint, but no channel id or token has been issued yet
+            let mut c = chan;
+            c.set_secure_channel_id(0);
+            c.set_token_id(0);
+            Receiver::new(c)
+        }
         _ => Receiver::new(chan),
     }
 }
@@ -571,10 +579,13 @@ fn mutations_for(valid_len: usize, first_len: usize, block: u64, block_size: u64
     for n in 1..=16 {
         all.push(json!({"m": "extend", "n": n}));
         all.push(json!({"m": "extend_fix", "n": n}));
+        // the same bytes handed to the secure channel directly, without the framing layer
+        all.push(json!({"m": "extend_direct", "n": n}));
     }
     if asymmetric {
         // asymmetric chunks do not depend on the channel nonces; the foreign party is another certificate / key
         all.push(json!({"m": "foreign_cert"}));
+        all.push(json!({"m": "foreign_cert", "state": "awaiting_first_opn"}));
     } else {
         // symmetric chunks do not depend on certificates; the foreign party has keys from other nonces
         all.push(json!({"m": "foreign_nonces"}));
@@ -617,7 +628,7 @@ fn c08_blocks(cfg: &Value) -> u64 {
             let asym = cfg["kind"] == "opn";
             let header = if asym { first.min(200) } else { 24 };
             let step = if first > 600 { 7 } else { 1 };
-            let n = header * 8 + (total - header) + total + (first.saturating_sub(12) + step - 1) / step + 32 + if asym { 1 } else { 2 };
+            let n = header * 8 + (total - header) + total + (first.saturating_sub(12) + step - 1) / step + 48 + 2;
             (n as u64 + C08_BLOCK - 1) / C08_BLOCK
         }
         None => 1,
@@ -652,6 +663,20 @@ fn exec_faulty(id: &str, plan: &Value, ctx: &mut Ctx) {
     }
     for (i, m) in muts.iter().enumerate() {
         ctx.step(i);
+        if m["m"] == "extend_direct" {
+            ctx.fault("extend_direct");
+            let mut r = receiver_for(plan, "established");
+            let mut src = valid.chunks[0].clone();
+            src.extend(std::iter::repeat(0xEE).take(m["n"].as_u64().unwrap_or(1) as usize));
+            let res = crate::panics::catch(|| r.chan.verify_and_remove_security(&src));
+            match res {
+                Ok(Ok(_)) => ctx.violate("C08", "modified-chunk-accepted", &format!("extend_direct,{}", plan["kind"].as_str().unwrap_or("")), format!("verify_and_remove_security accepted a chunk with {} bytes appended ({} {} {} bits)", m["n"], plan["policy"], plan["mode"], plan["bits"])),
+                Ok(Err(_)) => {}
+                Err(c) => ctx.violate("C09", "panic", &c.discriminator(), format!("{} on mutation {}", c.describe(), m)),
+            }
+            ctx.log("extend_direct", "");
+            continue;
+        }
         let (stream, intact_frames) = mutate(&valid, m, plan);
         let kind = m["m"].as_str().unwrap_or("flip");
         ctx.fault(kind);
